@@ -175,6 +175,13 @@ def _fn_has_yield(fn: ast.FunctionDef) -> bool:
     return visit(fn)
 
 
+def _holds_objects(sort: Any) -> bool:
+    """a record sort with a (possibly optional / nested) component of an uninterpreted object sort"""
+    if isinstance(sort, RecSort):
+        return any(isinstance(fs, USort) or (isinstance(fs, OptSort) and isinstance(fs.elem, USort)) or _holds_objects(fs) for _, fs in sort.fields)
+    return False
+
+
 class Machine:
     def __init__(self, world: World, contract: Contract, mod: extract.ModuleSrc, fn: ast.FunctionDef) -> None:
         self.world = world
@@ -191,6 +198,8 @@ class Machine:
         self.ctx: PathCtx = None  # type: ignore[assignment]
         self.result: V | None = None
         self.global_syms: dict[str, V] = {}
+        self.loop_fresh_names: dict[int, list[str]] = {}
+        self.maybe_unbound: dict[str, Any] = {}
         self.call_ord: dict[str, int] = {}
         self.fn_short = contract.key
         self.entry_snapshot: dict[str, V] = {}
@@ -402,6 +411,7 @@ class Machine:
 
     def assign(self, t: ast.AST, v: V) -> None:
         if isinstance(t, ast.Name):
+            self.maybe_unbound.pop(t.id, None)
             decl = self.contract.locals.get(t.id)
             if decl and not self.spec and not decl.startswith(("List[", "Deque[", "Dict[", "Set[", "Iter[", "py:", "Tuple[")):
                 v = self.coerce_decl(v, decl)
@@ -685,6 +695,12 @@ class Machine:
 
     def havoc_for_loop(self, body: list[ast.stmt], extra_cells: set[int], k: int) -> None:
         for n in sorted(_assigned_names(body)):
+            if n not in self.env and n in self.contract.locals and self.contract.locals[n].startswith(("List[", "Deque[")):
+                # first bound inside the loop: after the havoc it holds the previous iteration's value -- or nothing at all when no
+                # iteration has run yet (reads are guarded by `maybe_unbound`, see ex_Name)
+                self.env[n] = self.fresh_of(self.contract.locals[n], n)
+                self.loop_fresh_names.setdefault(k, []).append(n)
+                continue
             if n in self.env:
                 v = self.env[n]
                 decl = self.contract.locals.get(n)
@@ -806,6 +822,8 @@ class Machine:
                 self.ctx.assume(full.term == z3.Concat(dones[j].term, self.ctx.cell(a).value.term))  # type: ignore[union-attr]
                 self.ctx.bank.add(full.term, ("concat", dones[j].term, self.ctx.cell(a).value.term))  # type: ignore[union-attr]
         bind_ghosts()
+        for n in self.loop_fresh_names.get(k, []):
+            self.maybe_unbound[n] = z3.Length(dones[0].term) > 0
         self.assume_inv(lc)
         rests = [self.ctx.cell(a).value for a, _ in streams["cells"]]
         nonempty = [z3.Length(r.term) > 0 for r in rests]
@@ -927,6 +945,11 @@ class Machine:
 
     def ex_Name(self, e: ast.Name, hint: str | None = None) -> V:
         n = e.id
+        if not self.spec and n in self.maybe_unbound:
+            cond = self.maybe_unbound[n]
+            if not self.ctx.branch(cond):
+                raise RaiseSig(VExc("UnboundLocalError"))
+            self.maybe_unbound.pop(n, None)
         if n in self.env:
             v = self.env[n]
             if self.spec and isinstance(v, VHeapRef):
@@ -1401,6 +1424,9 @@ class Machine:
                     if r is not None:
                         return r
             it = container.sort.elem.coerce(item)
+            if not self.spec and getattr(self.world, "py_eq_hooks", []) and _holds_objects(container.sort.elem):
+                # Python's `in` compares with ==; for records (tuples) holding objects with a user-defined __eq__ that is not term identity
+                raise EngineError(f"`in` on a sequence of {container.sort.elem.name} records holding objects with user-defined equality (needs an area hook)")
             return z3.Contains(container.term, z3.Unit(it.term))
         r = self.call_dunder(container, "__contains__", [item])
         if r is not None:
@@ -1666,6 +1692,12 @@ class Machine:
         fsrc = ast.unparse(e.func)
         if fsrc in ("cast", "t.cast", "typing.cast"):
             return self.eval(e.args[1])
+        if self.spec and fsrc == "implies" and len(e.args) == 2:
+            # lazy: a consequent under a literally false antecedent is not evaluated (it may mention a local that is not bound yet)
+            a0 = self.truth(self.eval(e.args[0]))
+            if z3.is_false(z3.simplify(a0)):
+                return VBool(True)
+            return VBool(z3.Implies(a0, self.truth(self.eval(e.args[1]))))
         if self.spec and fsrc == "keys_of" and len(e.args) == 1:
             # keys_of(d): the insertion-ordered key sequence of a dict cell (spec only)
             a0 = e.args[0]
